@@ -169,11 +169,23 @@ impl PriceLevel {
     ) -> MatchResult {
         let mut result = MatchResult::new(taker_order_id, incoming_quantity);
         let mut remaining = incoming_quantity;
+        // Orders that show nothing and cannot replenish their display: kept out of the queue
+        // until this match is over, then re-queued.
+        let mut set_aside: Vec<OrderType<()>> = Vec::new();
 
         while remaining > 0 {
             if let Some(order_arc) = self.orders.pop() {
                 let (consumed, updated_order, hidden_reduced, new_remaining) =
                     order_arc.match_against(remaining);
+
+                // Nothing executed and nothing replenished: re-queuing the unchanged order
+                // would make this loop pop it again forever.
+                if consumed == 0 && hidden_reduced == 0 {
+                    if let Some(unchanged) = updated_order {
+                        set_aside.push(unchanged);
+                        continue;
+                    }
+                }
 
                 if consumed > 0 {
                     // Update visible quantity counter
@@ -243,6 +255,10 @@ impl PriceLevel {
             } else {
                 break;
             }
+        }
+
+        for order in set_aside {
+            self.orders.push(Arc::new(order));
         }
 
         result.remaining_quantity = remaining;
